@@ -315,8 +315,16 @@ func RunCommand(cmdArgs []string, runDir string) (map[string]interface{}, error)
 	}
 
 	// TODO: duplicate stdout, stderr
+	// Both pipes have to be drained at the same time. A command that fills the
+	// stderr pipe while we wait for the end of stdout would otherwise block
+	// forever, and we with it.
+	stderrCh := make(chan []byte, 1)
+	go func() {
+		stderrOut, _ := io.ReadAll(stderrPipe)
+		stderrCh <- stderrOut
+	}()
 	stdout, _ := io.ReadAll(stdoutPipe)
-	stderr, _ := io.ReadAll(stderrPipe)
+	stderr := <-stderrCh
 
 	retVal := waitErrToExitCode(cmd.Wait())
 
